@@ -273,3 +273,161 @@ def lu_histogram(lines):
         if L and nb % L:
             h["partial_group"] += 1
     return h
+
+
+# ---------------------------------------------------------------------------------------
+# integrators with scripted policies.  A dyadic value is two tokens  m e  (= m * 2^e).
+# rosmock inplace L ncells nspec stages newf[6] a[15] c[15] m[6] e[6] gamma0 elo max_steps round_off_k
+#         factor_min factor_max rej_dec safety h_min h_max h_start time_step P[n*n] q[n] y0[c*n] nerrs errs[]
+# ---------------------------------------------------------------------------------------
+def d(m, e=0):
+    return "%d %d" % (m, e)
+
+
+def _ros_line(rng, word, tier, inplace=None, L=None, stages=None):
+    inplace = rng.randrange(2) if inplace is None else inplace
+    L = rng.randrange(0, 5) if L is None else L
+    ncells = rng.randrange(1, (2 * L + 2) if L else 4)
+    nspec = rng.randrange(1, 4)
+    stages = rng.choice([1, 2, 2, 3, 3, 4, 6]) if stages is None else stages
+    newf = [1] + [rng.randrange(2) for _ in range(5)]
+    coef = lambda: d(rng.choice([-2, -1, 1, 2]), -2)
+    a = [coef() for _ in range(15)]
+    c = [coef() for _ in range(15)]
+    m = [coef() for _ in range(6)]
+    e = [coef() for _ in range(6)]
+    gamma0 = rng.choice([d(1, -1), d(1, -2), d(1, 0)])
+    elo2 = rng.random() < 0.25
+    elo = d(2) if elo2 else d(1)
+    max_steps = rng.choice([12, 12, 12, 3, 1, 0])
+    rk = rng.choice([52, 52, 52, 30, 8])
+    fmin = rng.choice([d(1, -2), d(1, -3)])
+    fmax = rng.choice([d(2), d(4), d(8)])
+    rej = rng.choice([d(1, -1), d(1, -2), d(1, -3)])
+    safety = rng.choice([d(1), d(1, -1)])
+    ts = rng.choice([-3, -2, -1, 0, 0, 1, 2, 3])
+    if rng.random() < 0.08:
+        ts = rng.choice([-60, -53, -52, -51, -40])       # time steps around / below round_off
+    time_step = d(1, ts)
+    # legal controls: h_min <= h_max' = min(time_step, h_max), all powers of two (exact regime)
+    hmax_e = rng.choice([None, None, ts - 1, ts + 2, ts - 3])
+    hmaxp = ts if hmax_e is None else min(ts, hmax_e)
+    hmax = d(0) if hmax_e is None else d(1, hmax_e)
+    hmin_e = rng.choice([None, None, hmaxp - 10, hmaxp - 4, hmaxp - 2, hmaxp])
+    hmin = d(0) if hmin_e is None else d(1, hmin_e)
+    hstart = rng.choice([d(1, hmaxp - 3), d(1, hmaxp - 6), d(1, hmaxp + 1), d(1, hmaxp - 1), d(1, hmaxp), d(1, hmaxp - 3), d(0)])
+    P = [d(rng.randrange(-2, 3), -2) for _ in range(nspec * nspec)]
+    q = [d(rng.randrange(-2, 3), -1) for _ in range(nspec)]
+    y0 = [d(rng.randrange(0, 5)) for _ in range(ncells * nspec)]
+    # error script from the accept/reject word; perfect squares of two when the order is 2
+    errs = []
+    for ch in word:
+        if ch == "A":
+            errs.append(rng.choice([d(1, -2), d(1, -4)]) if elo2 else rng.choice([d(1, -1), d(1, -2), d(1, -4)]))
+        else:
+            errs.append(rng.choice([d(4), d(16)]) if elo2 else rng.choice([d(1), d(2), d(4), d(16)]))
+    errs.append(d(1, -2))   # everything after the word is accepted
+    t = [str(inplace), str(L), str(ncells), str(nspec), str(stages)] + list(map(str, newf)) + a + c + m + e + \
+        [gamma0, elo, str(max_steps), str(rk), fmin, fmax, rej, safety, hmin, hmax, hstart, time_step] + P + q + y0 + \
+        [str(len(errs))] + errs
+    return "rosmock " + " ".join(t)
+
+
+def accept_reject_words(maxlen):
+    for n in range(0, maxlen + 1):
+        for w in itertools.product("AR", repeat=n):
+            yield "".join(w)
+
+
+def gen_rosmock(rng, tier):
+    out = []
+    maxlen = 6 if tier == "thorough" else 4
+    reps = 6 if tier == "thorough" else 3
+    for w in accept_reject_words(maxlen):
+        for inplace in (0, 1):
+            for _ in range(reps):
+                out.append(_ros_line(rng, w, tier, inplace=inplace))
+    for _ in range(vol(tier, 300, 6000)):
+        n = rng.randrange(0, 9)
+        w = "".join(rng.choice("AARR") for _ in range(n))
+        out.append(_ros_line(rng, w, tier))
+    return out
+
+
+# bemock inplace L ncells nspec h_start max_iter nred reductions[] time_step P q y0 atol[n] rtol small nw w[]
+def gen_bemock(rng, tier):
+    out = []
+    for _ in range(vol(tier, 800, 15000)):
+        inplace = rng.randrange(2)
+        L = rng.randrange(0, 5)
+        ncells = rng.randrange(1, (2 * L + 2) if L else 4)
+        nspec = rng.randrange(1, 4)
+        hstart = rng.choice([d(0), d(0), d(1, -2), d(1, -1)])
+        max_iter = rng.choice([1, 2, 3, 4, 11])
+        reds = [rng.choice([d(1, -1), d(1, -2)]) for _ in range(5)]
+        time_step = d(1, rng.choice([-2, -1, 0, 1, 2]))
+        P = [d(rng.randrange(-4, 5), -2) for _ in range(nspec * nspec)]
+        q = [d(rng.randrange(-2, 3), -1) for _ in range(nspec)]
+        y0 = [d(rng.randrange(0, 5)) for _ in range(ncells * nspec)]
+        atol = [rng.choice([d(1, -4), d(1, -2), d(1)]) for _ in range(nspec)]
+        rtol = rng.choice([d(1, -4), d(1, -8), d(0)])
+        small = rng.choice([d(1, -20), d(1, -6)])
+        nw = rng.randrange(1, 30)
+        # scripted multiplier of the linear solve: 0 = converge at once, 1 = keep the full residual, small = converge
+        ws = [rng.choice([d(0), d(0), d(1), d(1), d(1, -1), d(1, -12), d(-1)]) for _ in range(nw)]
+        t = [str(inplace), str(L), str(ncells), str(nspec), hstart, str(max_iter), "5"] + reds + [time_step] + P + q + y0 + \
+            atol + [rtol, small, str(nw)] + ws
+        out.append("bemock " + " ".join(t))
+    return out
+
+
+# nerr   L ncells nspec pad atol[n] rtol y[] ynew[] err[]        isconv L ncells nspec pad atol[n] rtol small resid[] yn1[]
+def gen_nerr(rng, tier):
+    out = []
+    for L in range(0, 5):
+        for ncells in range(1, (3 * L + 2) if L else 5):
+            for nspec in range(1, 4):
+                for _ in range(vol(tier, 2, 12)):
+                    atol = [rng.choice([(1, -1), (1, 0), (1, -2), (3, -2)]) for _ in range(nspec)]
+                    rtol = rng.choice([(1, -1), (1, -2), (0, 0)])
+                    v = rng.choice([(1, -3), (1, 0), (1, 2), (3, 0), (1, -40)])   # every term equals v: the norm is |v|
+                    y, yn, er = [], [], []
+                    for c in range(ncells):
+                        for s in range(nspec):
+                            a = rng.randrange(-4, 5)
+                            b = rng.randrange(-4, 5)
+                            ymax = max(abs(a), abs(b))
+                            # scale = atol + rtol * ymax (dyadic) ; err = v * scale * (+-1)
+                            from fractions import Fraction
+                            sc = Fraction(atol[s][0]) * Fraction(2) ** atol[s][1] + Fraction(rtol[0]) * Fraction(2) ** rtol[1] * ymax
+                            ev = Fraction(v[0]) * Fraction(2) ** v[1] * sc * rng.choice([1, -1])
+                            if rng.random() < 0.1:
+                                ev = ev * 2        # a non-uniform entry (the oracle still applies, the tie may leave the regime)
+                            den = ev.denominator
+                            k = den.bit_length() - 1
+                            y.append(d(a)); yn.append(d(b)); er.append(d(ev.numerator, -k))
+                    pad = rng.choice([d(977), d(0), d(-5)])
+                    t = [str(L), str(ncells), str(nspec), pad] + [d(*x) for x in atol] + [d(*rtol)] + y + yn + er
+                    out.append("nerr " + " ".join(t))
+    return out
+
+
+def gen_isconv(rng, tier):
+    out = []
+    for L in range(0, 5):
+        for ncells in range(1, (3 * L + 2) if L else 5):
+            for nspec in range(1, 4):
+                for _ in range(vol(tier, 3, 15)):
+                    atol = [rng.choice([d(1, -1), d(1), d(1, -3)]) for _ in range(nspec)]
+                    rtol = rng.choice([d(1, -1), d(1, -3), d(0)])
+                    small = rng.choice([d(1, -10), d(1, -2)])
+                    n = ncells * nspec
+                    rs = [d(0)] * n if rng.random() < 0.5 else [rng.choice([d(0), d(1, -12), d(1, -4)]) for _ in range(n)]
+                    rs = list(rs)
+                    if rng.random() < 0.6:   # one offending element at a random logical position
+                        rs[rng.randrange(n)] = rng.choice([d(8), d(-8), d(1, -1), d(1, 1)])
+                    yn1 = [d(rng.randrange(0, 6)) for _ in range(n)]
+                    pad = rng.choice([d(977), d(0), d(-64)])
+                    t = [str(L), str(ncells), str(nspec), pad] + atol + [rtol, small] + rs + yn1
+                    out.append("isconv " + " ".join(t))
+    return out
